@@ -260,6 +260,11 @@ def run(F, R, tier):
                 R.inst("R16.3", key, ok, sp=norm_sp(t["sp"]), detail=why)
 
     # --- recursion
+    A = LP.Analysis(P, mono)
+    R.rule("R16.7", "a recursion that is bounded only by a depth counter does not multiply: if a call that stays on the cycle sits inside a loop "
+                    "of its caller (fan-out per level), every function entered that way consumes at least one unit of input on every successful "
+                    "return (so the number of invocations is bounded by the input size); otherwise time and memory grow as fan-out^depth, "
+                    "unrelated to the size of the input")
     nodes = {n["i"]: n for n in mono["inst_nodes"]}
     g = {i: set() for i in nodes}
     for a, b in mono["inst_edges"]:
@@ -284,6 +289,7 @@ def run(F, R, tier):
         bounded = bounded_cycle(P, member_keys)
         if bounded[0]:
             ok, why = True, "bounded recursion: " + bounded[1]
+            amplification(R, P, A, key, member_keys)
         elif key in R.reviewed:
             R.used_reviewed.append({"key": key, "reason": R.reviewed[key]["reason"]})
             ok, why = True, "reviewed-safe: " + R.reviewed[key]["reason"]
@@ -291,7 +297,7 @@ def run(F, R, tier):
     R.inst("R16.4", "instance-graph", len(nodes) >= 1000, got=len(nodes), expect=">= 1000 workspace instances", nontrivial=False)
 
     # --- R16.5 loop progress
-    r16_5(F, R, P, mono)
+    r16_5(F, R, P, mono, A)
 
     R.floor("R16.1", ASSERT_FLOOR)
     R.floor("R16.2", 8)
@@ -312,14 +318,206 @@ def run(F, R, tier):
 LOOP_FLOOR = 60
 
 
-def r16_5(F, R, P, mono):
+UINT_REF = re.compile(r"^&mut (u8|u16|u32|u64|usize)$")
+
+
+def _budget_params(f):
+    return [i for i in range(1, f.argc + 1) if UINT_REF.match(f.local_ty(i) or "")]
+
+
+def _passes_budget(f, bi, k):
+    """index of the argument of the call in block bi that is (a reborrow of) the `&mut uN` parameter local k of f, else None"""
+    t = f.blocks[bi]["t"]
+    reborrows = set()
+    for b in f.blocks:
+        if b["cleanup"]:
+            continue
+        for st in b["s"]:
+            if st["k"] == "assign" and len(st["p"]) == 1 and st["rv"]["k"] == "ref" and st["rv"].get("mut") and st["rv"]["p"] == [k, "*"]:
+                reborrows.add(st["p"][0])
+            if st["k"] == "assign" and len(st["p"]) == 1 and st["rv"]["k"] == "use" and (st["rv"]["a"].get("mv") == [k] or st["rv"]["a"].get("cp") == [k]):
+                reborrows.add(st["p"][0])
+    for ai, a in enumerate(t.get("args", [])):
+        p = a.get("mv") or a.get("cp")
+        if p and len(p) == 1 and (p[0] == k or p[0] in reborrows):
+            return ai
+    return None
+
+
+def _decrement_sites(P, A, f, k):
+    """blocks of f whose terminator is `checked_sub(*param_k, c)` with c >= 1, and the blocks that store into *param_k"""
+    subs, stores = [], []
+    for bi, b in enumerate(f.blocks):
+        if b["cleanup"]:
+            continue
+        for st in b["s"]:
+            if st["k"] == "assign" and st["p"] == [k, "*"]:
+                stores.append(bi)
+        t = b["t"]
+        if t["k"] == "call" and "checked_sub" in (t.get("fty") or "") and len(t.get("args", [])) == 2:
+            a0, a1 = t["args"]
+            src = a0.get("mv") or a0.get("cp")
+            from_budget = False
+            if src and len(src) == 1:
+                for st in b["s"]:
+                    if st["k"] == "assign" and st["p"] == src and st["rv"]["k"] == "use" and (st["rv"]["a"].get("cp") == [k, "*"] or st["rv"]["a"].get("mv") == [k, "*"]):
+                        from_budget = True
+            c = (a1.get("c") or {}).get("v")
+            if from_budget and isinstance(c, int) and c >= 1:
+                subs.append(bi)
+    return subs, stores
+
+
+def budget_discharge(P, A, f, bi, gk, members):
+    """(ii) of R16.7: the in-loop recursive call is paid for from a budget: f has a `&mut uN` parameter whose pointee is decremented by a
+    checked_sub (Err on underflow) in a block that dominates the call, the same reference is handed to the callee, every function on the
+    cycle passes it on and writes it only that way, and the functions that enter the cycle initialise it with a constant."""
+    g = P.fns.get(gk)
+    if g is None:
+        return False, "callee not analysed"
+    dom = A.graph(f).dominators()
+    for k in _budget_params(f):
+        ai = _passes_budget(f, bi, k)
+        if ai is None or ai + 1 not in _budget_params(g):
+            continue
+        subs, stores = _decrement_sites(P, A, f, k)
+        dsubs = [c for c in subs if c in dom.get(bi, set())]
+        dstores = [s for s in stores if s in dom.get(bi, set()) and any(c in dom.get(s, set()) for c in dsubs)]
+        if not dsubs or not dstores:
+            continue
+        # the reference travels round the cycle unchanged and is written only by decrement stores
+        ok = True
+        pos = {f.key: k}
+        work = [(g, ai + 1)]
+        seen = set()
+        while work and ok:
+            h, hk = work.pop()
+            if (h.key, hk) in seen:
+                continue
+            seen.add((h.key, hk))
+            hsubs, hstores = _decrement_sites(P, A, h, hk)
+            hdom = A.graph(h).dominators()
+            for sblk in hstores:
+                if not any(c in hdom.get(sblk, set()) for c in hsubs):
+                    ok = False
+            for hbi, cs in sorted(h.calls.items()):
+                if h.blocks[hbi]["cleanup"]:
+                    continue
+                for ce in cs:
+                    if ce["key"] in members:
+                        nxt = P.fns.get(ce["key"])
+                        na = _passes_budget(h, hbi, hk)
+                        if nxt is None or na is None or na + 1 not in _budget_params(nxt):
+                            ok = False
+                        else:
+                            work.append((nxt, na + 1))
+        if not ok:
+            continue
+        # entries: a function outside the cycle hands in `&mut <local initialised with a constant>`
+        inits = []
+        for e in P.fns.values():
+            if e.key in members:
+                continue
+            for ebi, cs in sorted(e.calls.items()):
+                if e.blocks[ebi]["cleanup"]:
+                    continue
+                for ce in cs:
+                    if ce["key"] in members:
+                        tgt = P.fns.get(ce["key"])
+                        bps = _budget_params(tgt) if tgt else []
+                        t = e.blocks[ebi]["t"]
+                        for bp in bps:
+                            if bp - 1 >= len(t["args"]):
+                                continue
+                            a = t["args"][bp - 1]
+                            src = a.get("mv") or a.get("cp")
+                            val = None
+                            if src and len(src) == 1:
+                                target = None
+                                cur = src[0]
+                                for _ in range(6):           # `&mut *(&mut local)`: follow the reborrows down to the local
+                                    nxt = None
+                                    for b2 in e.blocks:
+                                        for st in b2["s"]:
+                                            if st["k"] == "assign" and st["p"] == [cur] and st["rv"]["k"] == "ref":
+                                                rp = st["rv"]["p"]
+                                                if len(rp) == 1:
+                                                    target = rp[0]
+                                                elif len(rp) == 2 and rp[1] == "*":
+                                                    nxt = rp[0]
+                                    if target is not None or nxt is None:
+                                        break
+                                    cur = nxt
+                                if target is not None:
+                                    vals = []
+                                    for b2 in e.blocks:
+                                        for st in b2["s"]:
+                                            if st["k"] == "assign" and st["p"] == [target]:
+                                                c = st["rv"]["a"].get("c") if st["rv"]["k"] == "use" else None
+                                                vals.append(c.get("v") if c and isinstance(c.get("v"), int) else None)
+                                    if vals and all(v is not None for v in vals):
+                                        val = max(vals)
+                            inits.append((short(e.path), val))
+        if not inits or any(v is None or v > 2 ** 24 for _, v in inits):
+            continue
+        return True, "paid from a budget: %s decrements *%s by checked_sub before the call, the reference is passed round the cycle, initial value %s" % (
+            short(f.path), f.names.get(k, "arg%d" % k) if hasattr(f, "names") else "arg%d" % k, sorted(set(v for _, v in inits)))
+    return False, "no budget parameter"
+
+
+def amplification(R, P, A, cycle_key, member_keys):
+    members = set(member_keys)
+    fan = []
+    for k in sorted(members):
+        f = P.fns.get(k)
+        if f is None:
+            continue
+        g = A.graph(f)
+        in_loop = set()
+        for h, body in g.loops().items():
+            in_loop |= set(body)
+        for bi, cs in sorted(f.calls.items()):
+            if f.blocks[bi]["cleanup"] or bi not in in_loop:
+                continue
+            for ce in cs:
+                if ce["key"] in members:
+                    fan.append((f, bi, ce["key"]))
+    key = "amplify:" + cycle_key.split(":", 1)[1]
+    if not fan:
+        R.inst("R16.7", key, True, detail="no call that stays on the cycle sits inside a loop (fan-out 1 per level)", nontrivial=False)
+        return
+    # every function on the cycle that is entered from inside a loop - or any function every trip round the cycle must pass - consumes input
+    bad = []
+    paid = []
+    for f, bi, gk in fan:
+        g = P.fns.get(gk)
+        consuming = [k for k in members if A.consumes.get(k)]
+        # a trip round the cycle from g back to f: it is enough that the callee itself consumes (each invocation = one unit of input)
+        if not A.consumes.get(gk):
+            okb, whyb = budget_discharge(P, A, f, bi, gk, members)
+            if okb:
+                paid.append(whyb)
+                continue
+            bad.append("%s calls %s inside a loop; %s does not consume input on every successful return" % (
+                short(f.path), short(g.path) if g else gk, short(g.path) if g else gk))
+    ok = not bad
+    why = ("every in-loop recursive call enters a function that consumes input" + ((" or is " + "; ".join(sorted(set(paid)))) if paid else "")) \
+        if ok else "; ".join(sorted(set(bad)))
+    if not ok and key in R.reviewed:
+        R.used_reviewed.append({"key": key, "reason": R.reviewed[key]["reason"]})
+        ok, why = True, "reviewed-safe: " + R.reviewed[key]["reason"]
+    sp = norm_sp(fan[0][0].blocks[fan[0][1]]["t"].get("sp"))
+    R.inst("R16.7", key, ok, sp=sp, detail=why)
+
+
+def r16_5(F, R, P, mono, A=None):
     """loop progress: every natural loop of every reachable workspace function consumes a finite resource on every cycle."""
     R.rule("R16.5", "no reachable loop can run forever: in the MIR control-flow graph of every reachable workspace function, every cycle through a "
                     "loop head passes the success edge of a step that consumes from a finite object created outside the loop - `next`/`next_if*` "
                     "of a finite std iterator (Some edge) or a call that, by its bottom-up summary, consumes at least one unit of input on every "
                     "successful return (Ok / Some(Ok) edge; base: Read::read_exact into a non-empty fixed buffer); cursors are only moved forwards "
                     "(relative seeks have a non-negative argument) or restored to a saved mark")
-    A = LP.Analysis(P, mono)
+    A = A or LP.Analysis(P, mono)
     n_loops = 0
     n_iter = 0
     for f in sorted(P.fns.values(), key=lambda f: f.path):
